@@ -148,6 +148,14 @@ fn blocks(out: &[u8], split: Split) -> Result<(Vec<String>, Vec<String>), String
                         }
                     }
                 }
+                // binary-file notices carry the path but no line number
+                if path.is_none() {
+                    for marker in [": binary file matches (found ", ": WARNING: stopped searching binary file after match (found "] {
+                        if let Some(i) = l.find(marker) {
+                            path = Some(l[..i].to_string());
+                        }
+                    }
+                }
                 let Some(path) = path else { return Err(format!("line without a path prefix: {:?}", l)) };
                 match cur.as_mut() {
                     Some((p, body)) if *p == path => {
@@ -235,6 +243,8 @@ struct TreeSpec {
     /// files whose name contains "bad" (a search that fails after it has
     /// already produced results)
     failing_pre: bool,
+    /// explicit path arguments (empty: search the current directory)
+    paths: Vec<&'static str>,
 }
 
 fn trees() -> Vec<TreeSpec> {
@@ -251,6 +261,7 @@ fn trees() -> Vec<TreeSpec> {
             files: vec![("a.txt", "needle one\nhay\nneedle two\n".into()), ("b.txt", "hay\nhay\n".into()), ("c.txt", "x\nneedle\ny\nz\n".into())],
             dangling: false,
             failing_pre: false,
+            paths: vec![],
         },
         TreeSpec {
             name: "two-dirs-unequal-sizes",
@@ -263,12 +274,14 @@ fn trees() -> Vec<TreeSpec> {
             ],
             dangling: false,
             failing_pre: false,
+            paths: vec![],
         },
         TreeSpec {
             name: "with-error",
             files: vec![("a.txt", "needle\n".into()), ("b.txt", "hay\n".into()), ("d/c.txt", "a needle\nb\n".into())],
             dangling: true,
             failing_pre: false,
+            paths: vec![],
         },
         TreeSpec {
             name: "failing-preprocessor",
@@ -282,6 +295,39 @@ fn trees() -> Vec<TreeSpec> {
             ],
             dangling: false,
             failing_pre: true,
+            paths: vec![],
+        },
+        // more root paths than threads: the initial messages are dealt out to
+        // the workers' deques round-robin
+        TreeSpec {
+            name: "more-roots-than-threads",
+            files: vec![
+                ("r1/a.txt", "needle r1\n".into()),
+                ("r2/b.txt", "hay\n".into()),
+                ("r3/c.txt", "x\nneedle r3\n".into()),
+                ("r4/sub/d.txt", "needle r4\n".into()),
+                ("e5.txt", "needle e5\nhay\n".into()),
+            ],
+            dangling: false,
+            failing_pre: false,
+            paths: vec!["r1", "r2", "r3", "r4", "e5.txt"],
+        },
+        // an explicitly named file next to a traversed directory holding a
+        // binary file: binary handling is per file (explicit vs implicit), not
+        // per worker
+        TreeSpec {
+            name: "explicit-file-and-directory-with-binary",
+            files: vec![
+                ("top.txt", "needle top\n".into()),
+                ("dir/bin1.dat", "needle\0binary one\n".into()),
+                ("dir/t.txt", "needle t\n".into()),
+                ("dir/bin2.dat", "x\nneedle\0binary two\n".into()),
+                ("dir/u.txt", "hay\n".into()),
+                ("other.txt", "needle other\n".into()),
+            ],
+            dangling: false,
+            failing_pre: false,
+            paths: vec!["top.txt", "dir", "other.txt"],
         },
     ]
 }
@@ -299,7 +345,7 @@ struct Obs {
 }
 
 impl Runner {
-    fn run(&self, mode: &ModeSpec, threads: usize, follow: bool, sort: bool, pre: bool, node: Option<&sched::Node>) -> Obs {
+    fn run(&self, mode: &ModeSpec, threads: usize, follow: bool, sort: bool, pre: bool, paths: &[&str], node: Option<&sched::Node>) -> Obs {
         let mut cmd = Command::new(&self.rg);
         cmd.current_dir(&self.dir).args(["--no-config", "--color", "never"]).arg(format!("-j{}", threads));
         if follow {
@@ -317,6 +363,7 @@ impl Runner {
         if mode.name != "files" {
             cmd.arg("needle");
         }
+        cmd.args(paths);
         cmd.env_remove("RG_VERIF_SCHED").env_remove("RG_VERIF_TRACE");
         if let Some(n) = node {
             let spec = n.prefix.iter().map(|c| c.to_string()).collect::<Vec<_>>().join(",");
@@ -392,7 +439,7 @@ pub fn run(args: &Args) -> ! {
             let runner = Runner { rg: rg.clone(), dir: scratch.path.join(t.name), trace_path: scratch.path.join(format!("trace-{}", ci)) };
             let mut acc = Acc::default();
             acc.configs += 1;
-            let reference = runner.run(mode, 1, t.dangling, sorted, t.failing_pre, None);
+            let reference = runner.run(mode, 1, t.dangling, sorted, t.failing_pre, &t.paths, None);
             let ref_blocks = blocks(&reference.stdout, mode.split);
             let mut report = |acc: &mut Acc, why: String, node: &sched::Node, o: &Obs| {
                 if acc.disc.len() < 5 {
@@ -411,7 +458,7 @@ pub fn run(args: &Args) -> ! {
                     break;
                 }
                 budget -= 1;
-                let o = runner.run(mode, threads, t.dangling, sorted, t.failing_pre, Some(&node));
+                let o = runner.run(mode, threads, t.dangling, sorted, t.failing_pre, &t.paths, Some(&node));
                 acc.schedules += 1;
                 let Some(trace) = &o.trace else {
                     // --sort forces a single thread: no parallel walk, no trace
@@ -499,7 +546,7 @@ pub fn run(args: &Args) -> ! {
     ev.set(
         "rule",
         format!(
-            "Every execution is the REAL rg binary (built with ignore/verif-hooks) on a scratch tree, its parallel walker's workers serialised by the cooperative replay scheduler installed from RG_VERIF_SCHED; explored: every interleaving of the hooked walker points with at most {} preemption(s) (budget {} schedules per configuration), for 4 trees (3-5 files of unequal size in 1-3 directories, one with a dangling symlink under -L, one searched through a --pre command that fails for two files after producing output) x 9 output modes (no-heading, --heading, -C1, -c, -l, --files-without-match, --json, --files, -q) x threads {:?}, plus --sort path. Oracle: the same command at -j1: same exit status; stdout split into per-file blocks by the mode's own framing is a permutation of the single-threaded blocks, each file contiguous and once, separators exactly between blocks; with --sort byte-identical. states = distinct outputs produced; transitions = scheduling decisions executed; traces_validated_against_impl = schedules executed.",
+            "Every execution is the REAL rg binary (built with ignore/verif-hooks) on a scratch tree, its parallel walker's workers serialised by the cooperative replay scheduler installed from RG_VERIF_SCHED; explored: every interleaving of the hooked walker points with at most {} preemption(s) (budget {} schedules per configuration), for 6 trees (3-5 files of unequal size in 1-3 directories; one with a dangling symlink under -L; one searched through a --pre command that fails for two files after producing output; one given as five root paths, more than there are threads; one given as an explicit file, a directory holding two binary files, and another explicit file) x 9 output modes (no-heading, --heading, -C1, -c, -l, --files-without-match, --json, --files, -q) x threads {:?}, plus --sort path. Oracle: the same command at -j1: same exit status; stdout split into per-file blocks by the mode's own framing is a permutation of the single-threaded blocks, each file contiguous and once, separators exactly between blocks; with --sort byte-identical. states = distinct outputs produced; transitions = scheduling decisions executed; traces_validated_against_impl = schedules executed.",
             pbound, tier.pick(400, 6000), tier.pick(vec![2], vec![2, 3])
         ),
     );
